@@ -39,6 +39,7 @@ type BarSpec struct {
 	ExtRows   int
 	ExtRev    bool
 	ExtErrAt  int
+	ExtNoNL   bool // the extender's last line is not newline-terminated
 	FillErrAt int
 	Pre, App  []DecorSpec
 }
@@ -125,6 +126,9 @@ func (sp *Spec) String() string {
 		}
 		if bs.ExtRows > 0 {
 			fmt.Fprintf(&b, ",ext=%d/%v", bs.ExtRows, bs.ExtRev)
+		}
+		if bs.ExtNoNL {
+			b.WriteString(",ext-unterminated")
 		}
 		if bs.FillErrAt > 0 {
 			fmt.Fprintf(&b, ",fillerr@%d", bs.FillErrAt)
@@ -395,6 +399,9 @@ func (r *runner) barOptions(i int) (mpb.BarFiller, []mpb.BarOption) {
 			}
 			for k := 0; k < bs.ExtRows; k++ {
 				fmt.Fprintf(w, "[x%d.%d]\n", i, k)
+			}
+			if bs.ExtNoNL {
+				fmt.Fprintf(w, "[x%d.%d]", i, bs.ExtRows) // an unterminated tail: not a line
 			}
 			return nil
 		}), bs.ExtRev))
